@@ -19,10 +19,13 @@ def keysOf {α : Type} (specs : List (List Char × α)) : List (Key × α) :=
   `stringArg` with `mArgString = name` (everything behind the two dashes, up to a `=`);
   `Handler::evalSingleArgument` (handler.cpp) looks the first up with `ArgumentKey( ai->mArgChar)`
   and the second with `ArgumentKey( ai->mArgString)`, i.e. it runs the name through the parser of
-  key *specifications* once more.  Only the two plain key words are modelled here (bundled
-  characters `-abc`, `--name=value`, values and control characters belong to the handler model,
-  `Model/ProgArgs`); the tie is the harness operation `keys word`, which goes through the real
-  `Handler::evalArguments`. -/
+  key *specifications* once more — after the `fix:` commit for the finding `one-char-long-key` with
+  the two dashes put back in front of a name of one character (`wordKey` in Model/Keys.lean, the
+  function the handler model uses too), because a lone character is the SHORT key for that parser.
+  `cmdKeyHead` / `cmdLookupHead` are the pinned code (kept for the witness theorems).
+  Only the two plain key words are modelled here (bundled characters `-abc`, `--name=value`, values
+  and control characters belong to the handler model, `Model/ProgArgs`); the tie is the harness
+  operation `keys word`, which goes through the real `Handler::evalArguments`. -/
 
 /-- a key word of the command line: `-c` or `--name` -/
 inductive CmdWord where
@@ -39,7 +42,12 @@ def classifyWord : List Char → Option CmdWord
 /-- the lookup key `Handler::evalSingleArgument` constructs -/
 def cmdKey : CmdWord → Res Key
   | .short c => .ok (Key.ofChar c)          -- `ArgumentKey( ai->mArgChar)`
-  | .long name => Key.parse name            -- `ArgumentKey( ai->mArgString)`
+  | .long name => wordKey name              -- `ArgumentKey( "--" + name)` if |name| = 1, else `ArgumentKey( name)`
+
+/-- the lookup key the pinned `Handler::evalSingleArgument` constructed -/
+def cmdKeyHead : CmdWord → Res Key
+  | .short c => .ok (Key.ofChar c)
+  | .long name => wordKeyHead name          -- `ArgumentKey( ai->mArgString)` for every name
 
 /-- `processArg( key)` as far as the table is concerned: the entry a key word selects -/
 def cmdLookup {α : Type} (abbr : Bool) (table : List (Key × α)) (w : List Char) : Res (Option (Nat × α)) :=
@@ -47,6 +55,14 @@ def cmdLookup {α : Type} (abbr : Bool) (table : List (Key × α)) (w : List Cha
   | none => .throw .logic_error             -- not a key word (never produced for one; the driver answers `bad-op`)
   | some cw => do
     let k ← cmdKey cw
+    findArg abbr table k
+
+/-- the same with the pinned key construction -/
+def cmdLookupHead {α : Type} (abbr : Bool) (table : List (Key × α)) (w : List Char) : Res (Option (Nat × α)) :=
+  match classifyWord w with
+  | none => .throw .logic_error
+  | some cw => do
+    let k ← cmdKeyHead cw
     findArg abbr table k
 
 end CelmaVerif.Keys
